@@ -25,7 +25,16 @@ def one(sid):
         env = dict(os.environ, PKV_REPO=wt)
         p = subprocess.run(f"./check {pid}", shell=True, cwd=VERIF, env=env, capture_output=True, text=True, timeout=3600)
         viol = [ln for ln in p.stdout.splitlines() if ln.startswith("VIOLATION")]
-        return sid, pid, ("CAUGHT" if p.returncode == 1 and viol else f"MISSED(exit {p.returncode})"), ""
+        if p.returncode == 1 and viol:
+            return sid, pid, "CAUGHT", ""
+        # not caught: does the change still break the property on this HEAD? (a later repair of /repo can make a recorded
+        # change harmless - its own demonstration then passes with the patch applied)
+        demo = os.path.join(d, "demo.py")
+        if os.path.exists(demo):
+            q = subprocess.run(f"/venv/bin/python {demo} {wt}", shell=True, cwd=wt, capture_output=True, text=True, timeout=1800)
+            if q.returncode == 0:
+                return sid, pid, "HARMLESS-ON-HEAD(demo passes with the patch)", ""
+        return sid, pid, f"MISSED(exit {p.returncode})", ""
     finally:
         subprocess.run(f"git -C /repo worktree remove --force {wt}", shell=True)
 
@@ -41,7 +50,7 @@ def main():
     with cf.ThreadPoolExecutor(max_workers=j) as ex:
         for sid, pid, verdict, msg in ex.map(one, ids):
             print(sid, pid, verdict, msg, flush=True)
-            if verdict != "CAUGHT":
+            if verdict != "CAUGHT" and not verdict.startswith("HARMLESS"):
                 missed += 1
     print(f"{len(ids) - missed} of {len(ids)} caught")
     # evidence files were rewritten by runs against patched trees: restore the committed ones
